@@ -23,23 +23,24 @@ import (
 )
 
 type scen struct {
-	Kind     string   `json:"kind"` // outbound, inbound, accept, malformed
-	Port     int      `json:"port"`
-	MyCall   string   `json:"mycall"`
-	Target   string   `json:"target"`
-	Via      []string `json:"via"`
-	Writes   []int    `json:"writes"`   // sizes of application writes (outbound)
-	Frames   []int    `json:"frames"`   // payload sizes of D frames the TNC sends (inbound / accept)
-	Segs     []int    `json:"segs"`     // TCP segment sizes for the TNC->host stream (nil = one write per frame)
-	Pace     string   `json:"pace"`     // "paced" (wait for the reader), "gap" (fixed gap), "burst"
-	ReadBuf  int      `json:"readbuf"`  // application read buffer size
-	ReadWait int      `json:"readwait"` // ms the reader stays idle before reading
-	GapMs    int      `json:"gapms"`    // gap between frames for pace "gap" (default 25)
-	Reverse  bool     `json:"reverse"`  // AGWPE_REVERSE_TO_FROM=true in the library's environment (affects the Y query of inbound connections only)
-	Redial   bool     `json:"redial"`   // inbound: after closing, dial the same station again on the same port and receive again
-	Foreign  bool     `json:"foreign"`  // interleave frames for other callsigns / ports
-	Malform  string   `json:"malform"`
-	Reply    string   `json:"reply"` // connect reply: ok, refuse, precondition
+	Kind      string   `json:"kind"` // outbound, inbound, accept, malformed
+	Port      int      `json:"port"`
+	MyCall    string   `json:"mycall"`
+	Target    string   `json:"target"`
+	Via       []string `json:"via"`
+	Writes    []int    `json:"writes"`    // sizes of application writes (outbound)
+	Frames    []int    `json:"frames"`    // payload sizes of D frames the TNC sends (inbound / accept)
+	Segs      []int    `json:"segs"`      // TCP segment sizes for the TNC->host stream (nil = one write per frame)
+	Pace      string   `json:"pace"`      // "paced" (wait for the reader), "gap" (fixed gap), "burst"
+	ReadBuf   int      `json:"readbuf"`   // application read buffer size
+	ReadWait  int      `json:"readwait"`  // ms the reader stays idle before reading
+	GapMs     int      `json:"gapms"`     // gap between frames for pace "gap" (default 25)
+	Reverse   bool     `json:"reverse"`   // AGWPE_REVERSE_TO_FROM=true in the library's environment (affects the Y query of inbound connections only)
+	DiscAfter bool     `json:"discafter"` // the remote station disconnects right after its last frame; the application reads only afterwards
+	Redial    bool     `json:"redial"`    // inbound: after closing, dial the same station again on the same port and receive again
+	Foreign   bool     `json:"foreign"`   // interleave frames for other callsigns / ports
+	Malform   string   `json:"malform"`
+	Reply     string   `json:"reply"` // connect reply: ok, refuse, precondition
 }
 
 func guard(f func()) (pan string) {
@@ -335,6 +336,12 @@ func runScenario(sc scen, rng *rand.Rand) []rec.Event {
 				}
 				time.Sleep(time.Duration(gap) * time.Millisecond)
 			}
+		case "gap-then-disc": // frames a few at a time, then the remote's disconnect, all before the application reads
+			for _, p := range pieces {
+				sim.SendSegments(p, sc.Segs, 0)
+				time.Sleep(60 * time.Millisecond)
+			}
+			sim.Send(Frame{Port: sc.Port, Kind: 'd', From: sc.Target, To: sc.MyCall, Data: []byte("*** DISCONNECTED From Station " + sc.Target + "\r\x00")}.Encode())
 		default: // paced: one frame at a time (segmented as planned), the next one only when the reader has caught up
 			sentPayload := 0
 			for _, p := range pieces {
@@ -523,6 +530,9 @@ func (r *result) tnc(sim *Sim, sc scen, written []byte, connected bool) {
 			disc = true
 		}
 	}
+	if sc.Pace == "gap-then-disc" {
+		disc = true // the remote station disconnected: there is nothing left for the library to disconnect
+	}
 	r.add(rec.Event{"op": "Exchange", "name": "disconnect", "seen": disc})
 }
 
@@ -689,6 +699,14 @@ func Main(args []string) int {
 		s.Reverse = true
 	})
 	mk(func(s *scen) { s.Kind = "outbound"; s.Writes = []int{10, 200}; s.Reverse = true })
+	mk(func(s *scen) {
+		s.Kind = "inbound"
+		s.Frames = []int{20, 30, 40}
+		s.Pace = "gap-then-disc"
+		s.ReadWait = 600
+		s.ReadBuf = 16
+	})
+	mk(func(s *scen) { s.Kind = "inbound"; s.Frames = []int{5, 6}; s.Pace = "gap-then-disc"; s.ReadWait = 500 })
 	mk(func(s *scen) { s.Kind = "inbound"; s.Frames = []int{4, 4, 5}; s.Redial = true })
 	mk(func(s *scen) { s.Kind = "inbound"; s.Frames = []int{40, 30, 20, 10}; s.Redial = true; s.ReadBuf = 16 })
 	// bursts with an idle reader: inside and far outside the pipeline's capacity
